@@ -96,7 +96,10 @@ def gen_work(item):
         rec = dict(kw=kw, shared_prims=shared, shared_nonidentical=respelled)
         try:
             b = copy.deepcopy(b0)
-            if kw.get('remove_free_primitives'):
+            if kw.get('direct'):
+                # the public function called on its own, with its defaults (use_copy=True): what it hands out must be well-formed too
+                b = getattr(manip, kw['direct'])(b)
+            elif kw.get('remove_free_primitives'):
                 b = manip.remove_free_primitives(b, False)
             if kw.get('optimize_general'):
                 b = manip.optimize_general(b, False)
@@ -109,7 +112,8 @@ def gen_work(item):
                 b = manip.uncontract_spdf(b, 0, False)
             if kw.get('make_general'):
                 b = manip.make_general(b, False, False)
-            b = manip.prune_basis(b, False)
+            if not kw.get('direct'):
+                b = manip.prune_basis(b, False)
         except Exception as e:
             rec['raised'] = '%s: %s' % (type(e).__name__, str(e)[:160])
             out['cases'].append(rec)
@@ -258,7 +262,7 @@ def run(ctx):
         evaluate(ctx, R, pmap(work, items[i:i + 30]), 'api.get_basis')
     gitems = []
     for i in range(ctx.n(60, 1500)):
-        gitems.append(('gen%d' % i, genbasis.gen_basis(rng), [c for c in combos_for(rng, False, 0) ]))
+        gitems.append(('gen%d' % i, genbasis.gen_basis(rng), [c for c in combos_for(rng, False, 0)] + [dict(direct=f) for f in ('make_general', 'uncontract_general', 'optimize_general', 'prune_basis')]))
     for i in range(0, len(gitems), 60):
         evaluate(ctx, R, pmap(gen_work, gitems[i:i + 60]), 'manip.pipeline')
     R.exhaustive = False
